@@ -1120,3 +1120,87 @@ func ruleReplayOrder(r *Report) {
 		}
 	}
 }
+
+// ruleSingleSection: C10.single
+func ruleSingleSection(r *Report) {
+	L := r.Shared.Lockset()
+	h := r.Rule("C10.single", "P+L", "a commit applies the row markers and all column updates of a block inside one critical section: Txn.commit runs one latch loop, its callback contains both apply steps, and the latch loop takes and releases the latch exactly once around one callback invocation", 3)
+	commit := r.Anchor("(*column.Txn).commit")
+	cb := commitCallback(r)
+	if commit == nil || cb == nil {
+		return
+	}
+	rw := callsTo(commit, false, "(*column.Txn).rangeWrite")
+	n := 0
+	withClosures(commit, func(f *ssa.Function) { n += len(callsTo(f, false, "(*column.Txn).rangeWrite")) })
+	ok := len(rw) == 1 && n == 1
+	if ok {
+		cc, _, _ := callCommon(rw[0])
+		ok = asFunc(cc.Args[1]) == cb
+	}
+	h.Check(ok, "(*column.Txn).commit/one-loop", r.P.Pos(commit.Pos()), "one rangeWrite whose callback applies the block", "commit does not apply a block inside a single latch loop")
+	both := len(callsTo(cb, false, "(*column.Txn).commitMarkers")) == 1 && len(callsTo(cb, false, "(*column.Txn).commitUpdates")) == 1
+	h.Check(both, fnName(cb)+"/both-steps", r.P.Pos(cb.Pos()), "markers and updates in one callback", "row markers and column updates of a block are not applied by the same callback (two critical sections: a reader can see the row between them)")
+	if rwf := r.Anchor("(*column.Txn).rangeWrite"); rwf != nil {
+		withClosures(rwf, func(f *ssa.Function) {
+			var acq, rel, cbs []ssa.Instruction
+			allInstrs(f, func(ins ssa.Instruction) {
+				cc, _, _ := callCommon(ins)
+				if cc == nil {
+					return
+				}
+				if op, isL := L.classifyLock(cc, f); isL && op.Name == "latch" {
+					if op.Acquire {
+						acq = append(acq, ins)
+					} else {
+						rel = append(rel, ins)
+					}
+				}
+			})
+			for _, c := range userCallIn(f) {
+				cbs = append(cbs, c)
+			}
+			if len(acq) == 0 {
+				return
+			}
+			lops, _ := L.classifyLock(&acq[0].(*ssa.Call).Call, f)
+			ok := len(acq) == 1 && len(rel) == 1 && len(cbs) == 1 && lops.Mode == 'W' && precedes(acq[0], cbs[0]) && precedes(cbs[0], rel[0])
+			h.Check(ok, fnName(f)+"/bracket", r.P.InstrPos(acq[0]), "Lock ≺ callback ≺ Unlock, once each", "the latch loop does not bracket exactly one callback invocation with one exclusive acquire and one release")
+		})
+	}
+}
+
+// ruleReserve: C11.reserve
+func ruleReserve(r *Report) {
+	h := r.Rule("C11.reserve", "P+def-use", "next() picks a free offset and marks it in the fill list inside one exclusive critical section of the collection mutex, marking exactly the offset it picked and returning it", 1)
+	fn := r.Anchor("(*column.Collection).next")
+	if fn == nil {
+		return
+	}
+	ff := callsTo(fn, false, "(*column.Collection).findFreeIndex")
+	sets := callsWhere(fn, func(_ ssa.Instruction, cc *ssa.CallCommon) bool {
+		return methodOn(cc, "github.com/kelindar/bitmap", "Bitmap", "Set")
+	})
+	ok := len(ff) == 1 && len(sets) == 1
+	if ok {
+		cc, _, _ := callCommon(sets[0])
+		fr, isF := fieldOf(cc.Args[0])
+		ok = isF && fr.Struct == "column.Collection" && fr.Field == "fill" && sameExpr(cc.Args[1], ff[0].(*ssa.Call))
+		// no unlock between pick and mark
+		L := r.Shared.Lockset()
+		allInstrs(fn, func(ins ssa.Instruction) {
+			if c2, _, _ := callCommon(ins); c2 != nil {
+				if op, isL := L.classifyLock(c2, fn); isL && !op.Acquire && canReach(ff[0], ins) && canReach(ins, sets[0]) {
+					ok = false
+				}
+			}
+		})
+		for _, ret := range returnsOf(fn) {
+			if !sameExpr(ret.Results[0], ff[0].(*ssa.Call)) {
+				ok = false
+			}
+		}
+	}
+	h.Check(ok, "(*column.Collection).next", r.P.Pos(fn.Pos()), "pick ≺ mark without releasing the mutex; returns the marked offset", "next() does not mark and return exactly the offset it picked within one critical section: two inserts can receive the same offset")
+	// findFreeIndex only returns offsets it believes free: not decided (bit arithmetic)
+}
